@@ -34,7 +34,7 @@ PROFILE = {
 
 
 def plan(tier):
-    return 3000 if tier == "quick" else 70000
+    return 6000 if tier == "quick" else 70000
 
 
 def budget(tier):
